@@ -17,7 +17,7 @@ LEVEL_NOTE = "Trusted: virtual clock, probes attached from /verif (wait_for_next
 DESIGN_REF = "§5 C31"
 RULE = "case = (program, cancel point k) or (program, timeout T); distinct = hash of (program, fault); non-trivial = fault lands while the run is unfinished"
 REQUIRED_REACH = ["cancel_point", "cancelled_run", "cancel_after_finish", "timeout_case", "timed_out_run", "timeout_after_finish", "resume_after_cancel",
-                  "active_steps_eval", "active_steps_nonempty"]
+                  "active_steps_eval", "active_steps_nonempty", "reserialize_after_resume"]
 ASSUMPTIONS = ["timeout instants avoid exact ties with the run's own event times (x.37 offsets)"]
 
 
@@ -124,6 +124,13 @@ def check_cancel(case, k, ref, acc):
         return
     # a delayed retry still sitting in the (dead) control loop's wakeup heap when the run was cancelled
     delayed = any(type(t[2]).__name__ == "TickAddEvent" for r in tr.runners for t in r.scheduled_wakeups)
+    # the resumed run's own context must again be serializable (cancel -> resume -> serialize again)
+    try:
+        json.dumps(tr2.handler.ctx.to_dict())
+        acc.hit("reserialize_after_resume")
+    except Exception as e:  # noqa: BLE001
+        acc.violation({"mech": "resumed_context_not_serializable", "exc": type(e).__name__},
+                      f"after cancel at yield {k} and resume, ctx.to_dict() of the resumed run raised {e!r}", wit)
     if tr2.outcome is None:
         acc.violation({"mech": "resume_after_cancel_never_finishes", "delayed_retry_pending_at_cancel": delayed},
                       f"resumed the context of a run cancelled at yield {k}: quiescent without finishing (reference {tr0.outcome})", wit)
@@ -145,20 +152,21 @@ def check_timeout(case, T, ref, acc):
     if tr.errors:
         acc.inconclusive.append(f"harness error timeout={T} seed={case['seed']}: {tr.errors[0][:300]}")
         return
-    end0 = tr0.extra.get("vt_handler_done", tr0.vt_end)
+    # Decided on THIS run's own timeline (tie orders may differ from the reference run, so its end time is no oracle)
     kind = oracles.outcome_kind(tr)
-    if T > end0:
+    done_at = tr.extra.get("vt_handler_done")
+    stop_returned = [r for r in tr.rec.of("emit") if r["how"] == "return" and r["type"] in ("StopEvent", "Done")]
+    if kind != "timeout":
         acc.hit("timeout_after_finish")
-        if kind == "timeout":
-            acc.violation({"mech": "finished_run_timed_out"}, f"uninterrupted run ends at vt={end0} but with timeout={T} it timed out", wit)
-        elif _res(case, tr.outcome) != _res(case, tr0.outcome):
-            acc.violation({"mech": "timeout_changed_result"}, f"timeout={T} (> end {end0}): {tr.outcome} != {tr0.outcome}", wit)
+        if done_at is not None and done_at > T + 1e-6:
+            acc.violation({"mech": "unfinished_run_not_timed_out", "outcome": str(kind)},
+                          f"timeout={T} but the run went on until vt={done_at} and ended as {tr.outcome}", wit)
         return
     acc.hit("timed_out_run")
     acc.sig(h({"s": case["seed"], "T": T}))
-    if kind != "timeout":
-        acc.violation({"mech": "unfinished_run_not_timed_out", "outcome": str(kind)}, f"run still unfinished at vt={T} (ends at {end0}) but outcome is {tr.outcome}", wit)
-        return
+    early_stop = [r for r in stop_returned if r["t"] < T - 1e-6]
+    if early_stop:
+        acc.violation({"mech": "finished_run_timed_out"}, f"a step returned the StopEvent at vt={early_stop[0]['t']} but the run was timed out at {T}", wit)
     terms = _terminal(tr)
     if [e["type"] for e in terms] != ["WorkflowTimedOutEvent"]:
         acc.violation({"mech": "timeout_terminal_event_wrong"}, f"timed-out run's terminal stream events: {[e['type'] for e in terms]}", wit)
